@@ -47,7 +47,7 @@ theorem emit_refines_nested (P : Prog) (fuel : Nat) (K : MStack) (script : List 
 
 /-- the emission loop itself: from related states the rest of an emission produces the same log
     and ends in related states -/
-theorem emit_refines_loop (P : Prog) (fuel : Nat) (K : MStack) (fid idx : Nat) (eg : Nat × Nat) (snap : List Nat)
+theorem emit_refines_loop (P : Prog) (fuel : Nat) (K : MStack) (fid : Nat) (idx : Option Nat) (eg : Nat × Nat) (snap : List Nat)
     (r₁ : Run State) (r₂ : Run SState) (h : RunRel Sim (((fid, idx), (eg, snap)) :: K) r₁ r₂) :
     (exec machine P fuel r₁ (.loop fid idx)).log = (exec Spec.machine P fuel r₂ (.loop eg snap)).log := by
   obtain ⟨_, _, hr⟩ := (exec_sim simOK P fuel).2 K fid idx eg snap r₁ r₂ h
@@ -69,8 +69,8 @@ theorem no_use_after_free (P : Prog) (ne nl fuel : Nat) (ops : List Action) :
     emissions), that connection is live in the specification — it was connected and has been
     neither disconnected nor lost its listener or emitter — the listener and the emitter
     exist, and the listener's own bookkeeping still lists the pair. -/
-theorem never_after_disconnect_or_destroy {m : State} {s : SState} {K : MStack} {fid idx e g : Nat}
-    {snap : List Nat} {l x p' : Nat} (h : Sim m s (((fid, idx), ((e, g), snap)) :: K))
+theorem never_after_disconnect_or_destroy {m : State} {s : SState} {K : MStack} {fid e g : Nat} {idx : Option Nat}
+    {snap : List Nat} {l x : Nat} {p' : Option Nat} (h : Sim m s (((fid, idx), ((e, g), snap)) :: K))
     (hcall : machine.next m fid idx = .call l x p') :
     s.eAlive e = true ∧ s.lAlive l = true ∧ (∃ c ∈ (s.sig e g).live, c.receiver = l ∧ c.slot = x) ∧
       (m.emitters e).isSome = true ∧ ∃ li, m.listeners l = some li ∧ (g, x) ∈ li.sigs e := by
@@ -271,10 +271,10 @@ example : RunRel Sim [] (Run.init State.fresh 3 3) (Run.init SState.fresh 3 3) :
 def midModel : State := (actBegin 0 0 (connect 0 0 0 0 State.fresh)).1
 def midSpec : SState := (Spec.begin 0 0 (Spec.connect 0 0 0 0 SState.fresh)).1
 
-example : Sim midModel midSpec [((0, 0), ((0, 0), [0]))] :=
+example : Sim midModel midSpec [((0, some 0), ((0, 0), [0]))] :=
   sim_begin 0 0 (sim_connect 0 0 0 0 sim_init rfl rfl) rfl
 
-example : machine.next midModel 0 0 = .call 0 0 1 := rfl
+example : machine.next midModel 0 (some 0) = .call 0 0 (some 1) := rfl
 
 /-- the hypothesis of `fuel_irrelevant` is met by the D18 program with fuel 20 -/
 example : (runOps machine d18 20 (Run.init State.fresh 1 2) d18ops).oof = false := by decide
